@@ -124,6 +124,20 @@ def run_paths(node, flag, buf, paths):
                 if not p.done:
                     p.text += "\x02"
         return paths
+    if k == "mcall" and node["m"] in ("push_str", "push", "write_str", "write_char") and len(node["args"]) == 1 and sir.expr_str(sir.strip_ref(node["recv"])) == buf:
+        a = sir.strip_ref(node["args"][0])
+        while a.get("k") == "paren":
+            a = sir.strip_ref(a["e"])
+        if a.get("k") == "if" and a.get("else") is not None:
+            # `buf.push_str(if c { "x" } else { "y" })` is `if c { buf.push_str("x") } else { buf.push_str("y") }`
+            def arm(br):
+                tail = br
+                while tail.get("k") == "block" and len(tail["stmts"]) == 1 and tail["stmts"][0].get("k") == "expr":
+                    tail = tail["stmts"][0]["e"]
+                m2 = dict(node)
+                m2["args"] = [tail]
+                return {"k": "block", "stmts": [{"k": "expr", "e": m2, "semi": True}]}
+            return run_paths({"k": "if", "cond": a["cond"], "then": arm(a["then"]), "else": arm(a["else"])}, flag, buf, paths)
     t = _emit_text(node, buf)
     if t is not None:
         # arguments are evaluated first (they may emit as well)
